@@ -182,12 +182,37 @@ def run_case(case, root, cap=90.0):
     def work():
         c = b.client
         try:
-            if op == "put":
+            if op == "put" and case.get("stat_lag"):
+                # the local file grew after put() looked at its size: put()'s os.stat sees the older, smaller size
+                import paramiko.sftp_client as sc
+
+                real_os = sc.os
+
+                class LaggingOs:
+                    def __getattr__(self, name):
+                        return getattr(real_os, name)
+
+                    def stat(self, path, *a, **kw):
+                        st = real_os.stat(path, *a, **kw)
+                        if path == local:
+                            fields = list(st)
+                            fields[6] = max(0, st.st_size - case["stat_lag"])
+                            box["lagged_stat"] = fields[6]
+                            return real_os.stat_result(fields)
+                        return st
+
+                sc.os = LaggingOs()
+                try:
+                    box["ret"] = c.put(local, "/r", callback=cb, confirm=case["confirm"])
+                finally:
+                    sc.os = real_os
+            elif op == "put":
                 box["ret"] = c.put(local, "/r", callback=cb, confirm=case["confirm"])
             elif op == "putfo":
                 src = ShortSource(data, case["source"], case["cseed"]) if case.get("source") else io.BytesIO(data)
                 box["src"] = src
-                box["ret"] = c.putfo(src, "/r", len(data), cb, case["confirm"])
+                declared = len(data) if case.get("declared") is None else case["declared"]
+                box["ret"] = c.putfo(src, "/r", declared, cb, case["confirm"])
             elif op == "pfile":
                 f = c.open("/r", "wb", case.get("bufsize", -1))
                 f.set_pipelined(True)
@@ -262,6 +287,11 @@ def run_case(case, root, cap=90.0):
     if case.get("source"):
         out["source_short_reads"] = box["src"].short_reads if box.get("src") is not None else 0
         out["source_read_calls"] = box["src"].calls if box.get("src") is not None else 0
+    if cb_calls:
+        out["callback_totals"] = sorted({t for _, t in cb_calls})[:3]
+        out["callback_last_done"] = cb_calls[-1][0]
+    if "lagged_stat" in box:
+        out["lagged_stat"] = box["lagged_stat"]
     out["close_plan"] = cplan
     out["close_fault_delivered"] = bool(close_seen)
     out.update(reads=script.reads, writes=script.writes, callback_calls=len(cb_calls),
